@@ -125,6 +125,19 @@ def run(chk):
             "match \"a\" { \"a\" | \"b\" => 1, \"c\"..\"e\" => 2 }"]
     for m in same:
         jobs.append((("sametype", m[:24]), "let z = %s;" % m, "accept", None, set()))
+    # arms with many integer alternatives: repeated values, gaps, any order; every scrutinee in and around the span
+    for alts in ([1, 2, 2, 4], [1, 2, 3, 4], [4, 3, 2, 1], [1, 1, 1, 4], [0, 2, 4, 6, 8], [5, 5, 6, 8, 8], [10, 11, 11, 13, 13, 15], [1, 2, 4, 4], [7, 7, 7, 7], [3, 1, 1, 5, 2]):
+        for sv in range(max(0, min(alts) - 1), max(alts) + 2):       # (negative numbers cannot be patterns)
+            src = "push(__o, match t(%d) { %s => \"listed\", %d => \"self\", _ => \"other\" });" % (sv, " | ".join(str(x) for x in alts), sv)
+            jobs.append((("alts", len(alts), len(set(alts)), sv in alts), src, [("s", "listed" if sv in alts else "self")], 1, set()))
+    for alts in (["a", "b", "b", "d"], ["x", "x", "y"]):
+        for sv in ("a", "b", "c", "d", "x", "y", "z"):
+            src = "push(__o, match t(%s) { %s => 1, _ => 2 });" % ("\"%s\"" % sv, " | ".join("\"%s\"" % x for x in alts))
+            jobs.append((("alts-str", len(alts), len(set(alts)), sv in alts), src, [("i", 1 if sv in alts else 2)], 1, set()))
+    # no default arm: a value that matches no arm yields null, whatever the patterns cover
+    for sv, want in (("5", "null"), ("true", "t"), ("false", "f"), ("null", "null"), ("\"s\"", "null"), ("0", "null"), ("[1]", "null")):
+        src = "push(__o, match t(%s) { true => \"t\", false => \"f\" });" % sv
+        jobs.append((("bool-arms-no-default", sv), src, [("null",) if want == "null" else ("s", want)], 1, set()))
     # if / else-if / else over truthiness representatives
     from .c06 import REPS
     for (ts, tv), (us, uv) in itertools.product(REPS[:-2], REPS[:-2:3]):
